@@ -1369,6 +1369,8 @@ func (c09) Run(plan interface{}, schedSeed uint64, replay []simrt.Choice, lenien
 	if out.Budget {
 		return v, out
 	}
+	// random values used by any login of the run: each OAEP seed and each session key must be a draw of its own
+	seeds := map[string]bool{}
 	judge := func(obs *loginObs, passwordHex string, remotePwHex []string, user string) {
 		isTwin := strings.HasPrefix(user, "twin_")
 		pw := unhex(passwordHex)
@@ -1556,7 +1558,6 @@ func (c09) Run(plan interface{}, schedSeed uint64, replay []simrt.Choice, lenien
 				cts = append(cts, groups[2].vals[0])
 				want = append(want, nil) // session key: checked separately
 			}
-			seeds := map[string]bool{}
 			var draws [][]byte
 			for _, d := range obs.randLog {
 				draws = append(draws, d.Bytes)
@@ -1584,6 +1585,10 @@ func (c09) Run(plan interface{}, schedSeed uint64, replay []simrt.Choice, lenien
 						v.Violate("wrong-plaintext", "session key is not nonce followed by 32 bytes", "%s: session key plaintext has %d bytes", where, len(pt))
 					} else if !isDraw(pt[len(nonce):]) {
 						v.Violate("stale-randomness", "session key is not a fresh random draw", "%s: the 32 session key bytes are not one of the %d random draws of this login", where, len(draws))
+					} else if seeds["key:"+string(pt[len(nonce):])] {
+						v.Violate("stale-randomness", "session key reused", "%s: the session key was already used by another login of this run", where)
+					} else {
+						seeds["key:"+string(pt[len(nonce):])] = true
 					}
 				}
 				seed, err := oaepSeed(priv, ct)
